@@ -8,7 +8,9 @@ correspond(): generated module sets (probe modules of every container kind, inte
               function list with `collect Gen.collectFuncs mods`, and the final clocks with `afterRun`.
 search():     the property on the real code only: an independent reference (module timelines + the documented phase
               order written down here) against the executed schedule: multiplicity, time order, phase order within an
-              instant, clock = scheduled index at every invocation, final clocks.
+              instant, clock = scheduled index at every invocation, final clocks; own-instant: the instant denoted by the
+              caller's own clock READING (date / year / own-unit number), converted to the sim's axis by this module's own
+              leap-aware arithmetic (never abstvec, never starsim's or sciris' conversions), is the scheduled time.
 """
 import math, warnings
 import numpy as np
@@ -22,7 +24,9 @@ RULE = ('module sets: 0-2 probe modules per container kind (demographics, networ
         'unitless with numeric or date start; every module draws its own unit/dt/start/stop (same unit with dt ratio and '
         'start/stop offsets, or a different unit). distinct = distinct (module kinds, time vectors); non-trivial = at '
         'least one module whose time vector differs from the sim\'s')
-TRUSTED = ['the abstvec of each module is taken from the code (C07 ties it); times are converted to integer multiples of '
+TRUSTED = ['the abstvec of each module is taken from the code (C07 ties it) — except date-based day/week/month owners of year sims, whose '
+           'vector is compared with Model/LoopInstant.lean applied to the dates their clock shows; the oracle re-derives every scheduled '
+           'instant from the caller\'s own clock reading with datetime arithmetic of its own; times are converted to integer multiples of '
            'time_eps after checking they are within 1e-3 eps of one']
 ASSUMPTIONS = ['people.* functions are modelled as functions of the sim owner (abs_tvecs["people"] is sim.t.abstvec: checked on every case)']
 
